@@ -130,6 +130,37 @@ Definition startup_ops (s : st) (env_changed : list str) (rehash : list (str * o
   [OpResetInterrupted] ++ map OpMarkStepPending env_changed
   ++ flat_map (hash_job_ops s true) rehash.
 
+(* ---- tracked environment variables (startup.rescan_env_vars) --------------------------------
+   Graph.st records which (step, variable) pairs exist; the recorded VALUES live here, next to it:
+   one row per env_var row, (step label, variable name, recorded value; None = unset).
+   [cur] is the environment of the starting director.  A row counts as changed when its step is
+   attached and the current value differs from the recorded one; every step with a changed row is
+   marked PENDING once (first occurrence order), and - when [stores] - the same transaction
+   records the value that was seen. *)
+Definition envval := (str * str * option N)%type.
+Definition ev_step (r : envval) : str := fst (fst r).
+Definition ev_name (r : envval) : str := snd (fst r).
+Definition ev_value (r : envval) : option N := snd r.
+Definition env_row_changed (cur : str -> option N) (s : st) (r : envval) : bool :=
+  attached (KStep, ev_step r) s && negb (on_eqb (cur (ev_name r)) (ev_value r)).
+Fixpoint nodup_strs (l : list str) : list str :=
+  match l with
+  | [] => []
+  | x :: l' => x :: filter (fun y => negb (str_eqb y x)) (nodup_strs l')
+  end.
+Definition rescan_env_steps (vals : list envval) (cur : str -> option N) (s : st) : list str :=
+  nodup_strs (map ev_step (filter (env_row_changed cur s) vals)).
+Definition rescan_env_store (stores : bool) (vals : list envval) (cur : str -> option N) (s : st)
+  : list envval :=
+  if stores then
+    map (fun r => if env_row_changed cur s r then (ev_step r, ev_name r, cur (ev_name r)) else r) vals
+  else vals.
+Definition env_unchanged_b (vals : list envval) (cur : str -> option N) (s : st) : bool :=
+  forallb (fun r => negb (env_row_changed cur s r)) vals.
+Definition startup_ops_env (s : st) (vals : list envval) (cur : str -> option N)
+           (rehash : list (str * option N)) : list op :=
+  startup_ops s (rescan_env_steps vals cur s) rehash.
+
 (* DirectorHandler.start_build_phase + the commit of Watcher.run_once *)
 Definition failed_attached (s : st) : list str :=
   map sl (filter (fun r => sstate_eqb (sst r) SFailed && attached (KStep, sl r) s) (steps s)).
